@@ -52,6 +52,25 @@ def render(facts: dict) -> str:
             "namespace Rbacx.Generated\n\n" + "\n".join(bodies) + "\nend Rbacx.Generated\n")
 
 
+def section_of_line(facts: dict, line: int) -> str | None:
+    """KEY of the plugin whose rendering contains line `line` (1-based) of the Generated.lean that `render(facts)` produces"""
+    text = render(facts)
+    pos = 0
+    for mod in _plugins():
+        f = facts.get(mod.KEY)
+        body = (f"-- extraction of {mod.KEY} failed: {f['extraction_failed']}\n" if isinstance(f, dict) and "extraction_failed" in f
+                else mod.render(f))
+        at = text.find(body, pos)
+        if at < 0:
+            continue
+        first = text.count("\n", 0, at) + 1
+        last = first + body.count("\n")
+        if first <= line <= last:
+            return mod.KEY
+        pos = at + len(body)
+    return None
+
+
 def write(facts: dict) -> bool:
     """Write Generated.lean / generated.json if changed; return True if something changed."""
     changed = False
